@@ -114,7 +114,7 @@ class DualQuaternion:
         """
         a = self.real * self.real.conj()
         b = self.real * self.dual.conj() + self.dual * self.real.conj()
-        return (base.sqrt(a.s), base.sqrt(b.s))
+        return (base.sqrt(a.s), b.s / (2 * base.sqrt(a.s)))
 
     def conj(self):
         r"""
